@@ -606,6 +606,10 @@ func zzRunC11(r *sim.Run) {
 		sid := sids[t.Choose("op.sid", len(sids))]
 		act := []engine.ActionType{engine.Mine, engine.Stop, engine.Remove, engine.Delete, engine.Delete, engine.Plot}[t.Choose("op.act", 5)]
 		info := zzInfo(sk, sid)
+		if (act == engine.Mine || act == engine.Plot) && info != "ready" && info != "mining" {
+			// plot requests for unplotted spaces wake the plotter goroutine: that is C09's (scheduled) territory
+			act = engine.Stop
+		}
 		pre := e.listing()
 		err := sk.ActOnWorkSpace(sid, act)
 		post := e.listing()
@@ -869,16 +873,28 @@ func zzRunC15(r *sim.Run) {
 	for i := t.Choose("gapkeys", 3); i > 0; i-- {
 		w.GenerateNewPublicKey()
 	}
+	// every plot directory is a disk of its own
+	e.disk.Mounts = map[string]int64{}
+	freeOf := func(dir string) int64 {
+		c := e.disk.Mounts[dir]
+		if c < 0 {
+			return -1
+		}
+		return c - e.disk.UsedUnder(dir)
+	}
 	setBudget := func() {
-		switch t.Choose("free", 4) {
-		case 0:
-			e.disk.Capacity = -1
-		case 1:
-			e.disk.Capacity = e.disk.Used() + int64(min)*int64(1+t.Choose("free.k", 40)) + int64(t.Choose("free.odd", 3)) - 1
-		case 2:
-			e.disk.Capacity = e.disk.Used() + int64(t.Choose("free.small", 3))*int64(min)/2
-		case 3:
-			e.disk.Capacity = e.disk.Used() + int64(zzPlotSize(28))*int64(1+t.Choose("free.big", 4))
+		for _, dir := range e.dirs {
+			used := e.disk.UsedUnder(dir)
+			switch t.Choose("free", 4) {
+			case 0:
+				e.disk.Mounts[dir] = -1
+			case 1:
+				e.disk.Mounts[dir] = used + int64(min)*int64(1+t.Choose("free.k", 40)) + int64(t.Choose("free.odd", 3)) - 1
+			case 2:
+				e.disk.Mounts[dir] = used + int64(t.Choose("free.small", 3))*int64(min)/2
+			case 3:
+				e.disk.Mounts[dir] = used + int64(zzPlotSize(28))*int64(1+t.Choose("free.big", 4))
+			}
 		}
 	}
 	setBudget()
@@ -901,10 +917,7 @@ func zzRunC15(r *sim.Run) {
 		}
 		pre := e.listing()
 		keyCtr := w.next
-		free := int64(-1)
-		if e.disk.Capacity >= 0 {
-			free = e.disk.Capacity - e.disk.Used()
-		}
+		free := freeOf(sk.dbDirs[0])
 		switch t.Weighted("op", []int{6, 4, 3, 1, 2, 2, 2}) {
 		case 0: // ConfigureBySize
 			target := zzTarget(t, min)
@@ -912,7 +925,7 @@ func zzRunC15(r *sim.Run) {
 			post := e.listing()
 			_, added := zzDiffList(pre, post)
 			r.Event("ConfigureBySize(%d = %.2f min) free=%d -> %d spaces err=%v created=%d", target, float64(target)/float64(min), free, len(infos), err, len(added)/2)
-			zzCheckSized(e, "BySize", []string{sk.dbDirs[0]}, []uint64{target}, infos, err, indexedBefore, pre, post, keyCtr, free, nil)
+			zzCheckSized(e, "BySize", []string{sk.dbDirs[0]}, []uint64{target}, infos, err, indexedBefore, pre, post, keyCtr, []int64{free})
 			if err == nil {
 				lastSel = zzSelOf(sk)
 			}
@@ -931,10 +944,31 @@ func zzRunC15(r *sim.Run) {
 				tg[j] = zzTarget(t, min)
 				sizes[j] = int(tg[j])
 			}
+			frees := make([]int64, n)
+			for j := range paths {
+				frees[j] = freeOf(paths[j])
+			}
+			// the API handler first asks the keeper whether every directory can hold its share
+			viaAPI := t.Bool("bypath.viaapi", 2, 3)
+			if viaAPI {
+				var perr error
+				for j := range paths {
+					if perr = sk.IsCapacityAvailable(paths[j], tg[j]); perr != nil {
+						break
+					}
+				}
+				if perr != nil {
+					r.Event("ConfigureCapacityByDirs(%v, %v) free=%v -> refused by the capacity pre-check: %v", zzBase(paths), sizes, frees, perr)
+					if _, added := zzDiffList(pre, e.listing()); len(added) > 0 {
+						r.Fail("C15/rejected-but-files-created/ByPath", "the capacity pre-check refused the request but created %v", zzBase(added))
+					}
+					continue
+				}
+			}
 			infos, err := sk.ConfigureByPath(paths, sizes, false, false)
 			post := e.listing()
 			_, added := zzDiffList(pre, post)
-			r.Event("ConfigureByPath(%v, %v) free=%d -> %d spaces err=%v created=%d", zzBase(paths), sizes, free, len(infos), err, len(added)/2)
+			r.Event("ConfigureByPath(%v, %v) viaAPI=%v free=%v -> %d spaces err=%v created=%d", zzBase(paths), sizes, viaAPI, frees, len(infos), err, len(added)/2)
 			// ConfigureByPath re-indexes from the given directories only
 			ib := map[string]zzSel{}
 			for sid, s := range indexedBefore {
@@ -944,7 +978,7 @@ func zzRunC15(r *sim.Run) {
 					}
 				}
 			}
-			zzCheckSized(e, "ByPath", paths, tg, infos, err, ib, pre, post, keyCtr, free, nil)
+			zzCheckSized(e, "ByPath", paths, tg, infos, err, ib, pre, post, keyCtr, frees)
 			if err == nil {
 				lastSel = zzSelOf(sk)
 			} else {
@@ -1038,7 +1072,7 @@ func zzRunC15(r *sim.Run) {
 			lastSel = nil
 		case 6:
 			setBudget()
-			r.Event("free space budget now %d", e.disk.Capacity-e.disk.Used())
+			r.Event("free space budgets changed")
 		}
 		r.State(zzH(fmt.Sprint(len(lastSel), len(e.listing()))))
 	}
@@ -1071,7 +1105,7 @@ func zzSelOf(sk *SpaceKeeper) []zzSel {
 
 // zzCheckSized: post-conditions of ConfigureBySize / ConfigureByPath (deliberately not the greedy algorithm).
 func zzCheckSized(e *zzEnvK, name string, dirs []string, targets []uint64, infos []engine.WorkSpaceInfo, err error,
-	indexedBefore map[string]zzSel, pre, post []string, keyCtr uint32, free int64, _ interface{}) {
+	indexedBefore map[string]zzSel, pre, post []string, keyCtr uint32, frees []int64) {
 	r := e.r
 	min := zzPlotSize(24)
 	_, added := zzDiffList(pre, post)
@@ -1095,13 +1129,15 @@ func zzCheckSized(e *zzEnvK, name string, dirs []string, targets []uint64, infos
 			}
 		}
 		// must a request that fits have been accepted?
-		if !below && err == ErrOSDiskSizeNotEnough && free >= 0 {
-			var sum uint64
-			for _, tg := range targets {
-				sum += tg
+		if !below && err == ErrOSDiskSizeNotEnough {
+			fits := true
+			for j, tg := range targets {
+				if frees[j] >= 0 && int64(tg) >= frees[j] {
+					fits = false
+				}
 			}
-			if int64(sum) < free {
-				r.Fail("C15/fitting-request-rejected/"+name, "targets %v need at most %d bytes, %d are free, yet the request was rejected for disk space", targets, sum, free)
+			if fits {
+				r.Fail("C15/fitting-request-rejected/"+name, "targets %v fit into the free space %v, yet the request was rejected for disk space", targets, frees)
 			}
 		}
 		return
@@ -1163,16 +1199,19 @@ func zzCheckSized(e *zzEnvK, name string, dirs []string, targets []uint64, infos
 		}
 	}
 	zzCheckNewFiles(e, name, dirs, pre, post, infos, indexedBefore)
-	// beyond free disk space must be rejected: what was created must fit
-	if free >= 0 {
+	// beyond free disk space must be rejected: what was created in a directory must fit there
+	for di := range targets {
+		if frees[di] < 0 {
+			continue
+		}
 		var createdBytes uint64
 		for sid, ws := range sel {
-			if _, old := indexedBefore[sid]; !old {
+			if _, old := indexedBefore[sid]; !old && ws.rootDir == dirs[di] {
 				createdBytes += zzPlotSize(ws.id.bitLength)
 			}
 		}
-		if int64(createdBytes) > free {
-			r.Fail("C15/beyond-free-space-accepted/"+name, "new spaces of %d bytes were created with only %d bytes free", createdBytes, free)
+		if int64(createdBytes) > frees[di] {
+			r.Fail("C15/beyond-free-space-accepted/"+name, "new spaces of %d bytes were created in %s with only %d bytes free", createdBytes, filepath.Base(dirs[di]), frees[di])
 		}
 	}
 }
